@@ -244,6 +244,41 @@ def r6_no_equality_guarded_self_return(ctx):
                    "" if ok else f"`return self` is taken when `{P.un(bad[1])}`: Python equality is coarser than the language's (0 == False, 1 == 1.0), so an assoc of a different value returns the old collection")
 
 
+def _swallows(h: ast.ExceptHandler) -> bool:
+    return not any(isinstance(x, ast.Raise) for s in h.body for x in ast.walk(s))
+
+
+@rule("C04.R8", floor=4)
+def r8_every_vararg_is_processed(ctx):
+    """A mutator taking several elements/keys (`*elems`, `*ks`) applies each of them: a loop over
+    the vararg is never wrapped, as a whole, in a try whose handler swallows the exception (the
+    first absent key would silently drop the remaining arguments), and never left early by
+    break/return from a handler.  The swallowing try belongs around the single operation."""
+    n = 0
+    for rel, cls in _classes(ctx):
+        for m in P.all_methods(cls):
+            va = m.args.vararg.arg if m.args.vararg is not None else None
+            if va is None:
+                continue
+            loops = [f for f in ast.walk(m) if isinstance(f, ast.For) and any(isinstance(x, ast.Name) and x.id == va for x in ast.walk(f.iter))]
+            for f in loops:
+                n += 1
+                outer = [t for t in P.ancestors(f) if isinstance(t, ast.Try) and any(_swallows(h) for h in t.handlers) and any(P.contains(s, f) for s in t.body)]
+                # stop at the method boundary
+                outer = [t for t in outer if P.contains(m, t)]
+                early = [x for h in ast.walk(f) if isinstance(h, ast.ExceptHandler) for s in h.body for x in ast.walk(s) if isinstance(x, (ast.Break, ast.Return))]
+                ok = not outer and not early
+                why = ""
+                if outer:
+                    why = f"the loop over *{va} sits inside a try (line {outer[0].lineno}) whose handler swallows the exception: the first argument that raises ends the loop and the remaining arguments are silently ignored"
+                elif early:
+                    why = f"a handler inside the loop over *{va} leaves the loop: the remaining arguments are ignored"
+                ctx.ob("C04.R8", f"{rel}::{cls.name}.{m.name}::every element of *{va} is applied", rel, f.lineno, ok, why,
+                       witness="(disj #{1 2} 5 1) must be #{2}")
+    if n == 0:
+        raise AnalysisError("no vararg loops found in the collection classes")
+
+
 RT = "src/basilisp/lang/runtime.py"
 DISPATCHED = ("assoc", "update", "conj", "dissoc", "disj", "pop", "contains", "get", "nth", "nthnext", "nthrest")
 
